@@ -13,6 +13,14 @@ CHECKS = {
              technique="Lean 4 theorems over translator-generated kernels + differential correspondence", ref="5/C07"),
 }
 NOT_YET = {}
+# per-property snippets written by whoever builds the check: checks/Cxx.manifest.json with keys
+# text, note (appended to NOTE), technique, ref, optional category; optional not_applicable reason
+import glob
+for f in sorted(glob.glob(os.path.join(HERE, "checks", "C*.manifest.json"))):
+    d = json.load(open(f)); pid = os.path.basename(f).split(".")[0]
+    if d.get("not_applicable"):
+        NOT_YET[pid] = d["not_applicable"]; continue
+    CHECKS[pid] = dict(text=d["text"], note=NOTE + d.get("note", ""), technique=d["technique"], ref=d.get("ref", "5/" + pid), category=d.get("category", "proof"))
 def main():
     props = [json.loads(l)["id"] for l in open(os.path.join(HERE, "properties.jsonl"))]
     checks = []
